@@ -37,6 +37,9 @@ ALPHABETS = {
     'contstr': ["'", '"', '\\\n', 'a', 'b', 'r', '\n', ' ', "'''", '\\'],
     'ffc': ['#', '\f', 'x', '\n', ' ', 'a', 'if a:'],
     'lines15': ['a', ' ', '\n', '\r', '\f', '\x0b', '\x1c', '\x1d', '\x1e', '\x85', '\u2028', '\u2029'],
+    # every character str.splitlines breaks on but Python does not, inside strings, comments and between tokens
+    'ctl': ['a', "'", '#', '\n', ' ', '\x0b', '\x0c', '\x1c', '\x1d', '\x1e', '\x1f', '\x85', '\u2028',
+            '\u2029', '"""', '\\'],
     # C12/C14 oriented
     'expr': ['a', '1', "'s'", 'f"{a}"', '=', ':=', ',', '*', '**', '(', ')', '[', ']', '{', '}', 'lambda',
              ':', ' ', '\n', '.', 'not ', 'in ', 'for a in a', 'if a', 'else', 'await ', 'yield', '...'],
